@@ -6,6 +6,7 @@ import (
 	"math/big"
 	"strings"
 	"testing"
+	"time"
 
 	"github.com/amzn/ion-go/ion"
 	"pgregory.net/rapid"
@@ -144,6 +145,35 @@ func runC15(c C15Case) string {
 		got, rerr = drive.Observe(ion.NewReaderBytes(buf.Bytes()))
 		if rerr != nil || len(got) != 1 || model.Diff(want, got[0]) != "" {
 			return fmt.Sprintf("binary round trip % x: %s %v, want %s", buf.Bytes(), model.SeqString(got), rerr, want)
+		}
+		// a date-precision timestamp built from a time.Time in some other zone keeps
+		// its calendar date in both formats (it has no offset to convert by)
+		if t.Prec <= model.PDay {
+			mo, da := t.Month, t.Day
+			if t.Prec < model.PMonth {
+				mo = 1
+			}
+			if t.Prec < model.PDay {
+				da = 1
+			}
+			for _, zone := range []*time.Location{time.FixedZone("", 5*3600), time.FixedZone("", -5*3600), time.FixedZone("", 14*3600)} {
+				z := ion.NewDateTimestamp(time.Date(t.Year, time.Month(mo), da, 0, 0, 0, 0, zone), its.GetPrecision())
+				if z.String() != s {
+					return fmt.Sprintf("NewDateTimestamp from midnight in zone %v: String()=%q, want %q", zone, z.String(), s)
+				}
+				var zb bytes.Buffer
+				zw := ion.NewBinaryWriter(&zb)
+				if err := zw.WriteTimestamp(z); err != nil {
+					return "binary WriteTimestamp: " + err.Error()
+				}
+				if err := zw.Finish(); err != nil {
+					return "binary Finish: " + err.Error()
+				}
+				zres, zerr := refbin.Decode(zb.Bytes(), refbin.Options{RequireIVM: true})
+				if zerr != nil || len(zres.Values) != 1 || model.Diff(want, zres.Values[0]) != "" {
+					return fmt.Sprintf("NewDateTimestamp from midnight in zone %v: the binary writer's output % x denotes %s (%v), want %s", zone, zb.Bytes(), model.SeqString(zres.Values), zerr, want)
+				}
+			}
 		}
 		// reference encode (representation variants) -> ion-go read
 		var ch refbin.Chooser
